@@ -51,7 +51,8 @@ def c02():
 
 
 # ------------------------------------------------------------------------------------------- shared API kernels
-def stack_queries(nn, quick_shapes=((1, 0), (1, 1), (2, 0), (2, 1), (2, 2)), thorough_shapes=((2, 3), (3, 0), (3, 1), (3, 2), (3, 4), (3, 5))):
+def stack_queries(nn, quick_shapes=((1, 0), (1, 1), (2, 0), (2, 1), (2, 2)), thorough_shapes=((2, 3), (3, 5))):
+    # N=3 with fewer than two pre-saturated expectations does not finish within 50 min (SAT, both back ends): outside the claim
     """api/stack.cpp: N stacked expectations, SAT = bitmask of pre-saturated ones; only property nn's obligations"""
     qs = []
     for n, sat in quick_shapes:
@@ -105,7 +106,7 @@ def c03():
 @prop('C07')
 def c07():
     return dict(
-        queries=stack_queries(7) + [Q('run_forbidden', 'C03/run.cpp', 4, defs={'VF_REGIME': 0})] + plumb_queries(7, (6,)),
+        queries=stack_queries(7) + [Q('run_forbidden', 'C03/run.cpp', 4, defs={'VF_REGIME': 0})] + plumb_queries(7, (6, 15)),
         level='model_checking',
         level_text='Bounded: a forbidding (H==0) designated candidate yields exactly one fatal report with its location, no count change, no side effect, stays active, satisfied and saturated; non-matching calls pass it by.',
         bound=STACK_BOUND,
@@ -129,7 +130,7 @@ def c08():
                                     defs={'VF_W': w, 'VF_S': sn, 'VF_MODE': mode, 'VF_AT': at, 'VF_B': b, 'VF_CLAIM': 8}, tv=(i % 11 == 0), timeout=600))
                         i += 1
     return dict(
-        queries=qs + stack_queries(8, quick_shapes=((1, 0), (2, 1), (2, 2)), thorough_shapes=((2, 0), (3, 0))) + plumb_queries(8, (11,)) + [Q('dtor_order5', 'C04/dtor.cpp', 10, defs={'VF_ORDER': 5, 'VF_CLAIM': 8}, timeout=900, portfolio=True)] + [q for q in mismatch_queries(8) if q['tier'] == 'quick' and q['defs']['VF_NA'] + q['defs']['VF_NS'] <= 2 and q['defs']['VF_NA'] >= 1],
+        queries=qs + stack_queries(8, quick_shapes=((1, 0), (2, 1), (2, 2)), thorough_shapes=((2, 0),)) + plumb_queries(8, (11,)) + [Q('dtor_order5', 'C04/dtor.cpp', 10, defs={'VF_ORDER': 5, 'VF_CLAIM': 8}, timeout=900, portfolio=True)] + [q for q in mismatch_queries(8) if q['tier'] == 'quick' and q['defs']['VF_NA'] + q['defs']['VF_NS'] <= 2 and q['defs']['VF_NA'] >= 1],
         level='model_checking',
         level_text='Bounded: for every clause arrangement (0..3 WITH x 0..3 SIDE_EFFECT x RETURN/THROW/throwing side effect/void) and every WITH outcome vector: WITH clauses run in declaration order and stop at the first false, side effects run once each in order and only then RETURN/THROW once, the value / exception reaches the caller for all 32-bit values, a throwing call still counts, and a shadowed expectation\'s actions never run.',
         bound='clause arrangements up to 3+3 (enumerated shapes, WITH outcomes as shape); argument, returned and thrown values symbolic; ' + STACK_BOUND,
@@ -309,7 +310,7 @@ def c05():
 @prop('C06')
 def c06():
     return dict(
-        queries=seqkern_queries(6) + seqstep_queries(6, quick_only=2),
+        queries=seqkern_queries(6) + seqstep_queries(6, quick_only=2) + plumb_queries(6, (14,)),
         level='model_checking',
         level_text='Bounded: is_completed() iff every listed handle is satisfied, before and after a real call; sequence destruction reports once, non-fatally, exactly the listed expectations in registration order and detaches them; empty teardown is silent; released / saturated handles leave.',
         bound=SEQKERN_BOUND + '; ' + SEQSTEP_BOUND,
@@ -366,6 +367,11 @@ def c11():
 @prop('C12')
 def c12():
     qs = [Q('lockop_%d' % op, 'C12/ops.cpp', 6, defs={'VF_OP': op, 'VF_CLAIM': 12}, lockinst=True, timeout=600) for op in range(1, 15)]
+    # one preemption at a solver-chosen outermost acquisition of the mutex (C12/sched.cpp)
+    qs += [Q('sched_%d' % sc, 'C12/sched.cpp', 6, defs={'VF_SC': sc, 'VF_CLAIM': 12, 'VF_SCHED': 1}, rtdefs={'VF_SCHED': 1},
+             sanitize=True, timeout=600, portfolio=True) for sc in (1, 2, 3, 5, 6, 7, 8, 9)]
+    qs += [Q('sched_4_at%d' % at, 'C12/sched.cpp', 6, defs={'VF_SC': 4, 'VF_CLAIM': 12, 'VF_SCHED': 1, 'VF_AT': at, 'VF_KMAX': 3}, rtdefs={'VF_SCHED': 1},
+             sanitize=True, timeout=600, portfolio=True) for at in (0, 1, 2, 3)]
     return dict(
         queries=qs,
         level='other',
@@ -460,7 +466,7 @@ def c17():
 @prop('C18')
 def c18():
     qs = []
-    for t in (0, 2, 3, 4, 5, 6):
+    for t in (0, 2, 3, 4, 5, 6, 7):
         qs.append(Q('print_T%d' % t, 'C18/print.cpp', 45, defs={'VF_T': t}, timeout=300))
     quick_sizes = (1, 2, 7, 8, 9, 15, 16, 17, 31, 32, 33, 40)
     for sz in range(1, 41):
@@ -480,7 +486,7 @@ def c18():
 @prop('C16')
 def c16():
     return dict(
-        queries=stack_queries(16) + plumb_queries(16, (6, 7, 11)) + seqstep_queries(16, quick_only=2) + [Q('set_reporter', 'C16/setrep.cpp', 6, defs={'VF_CLAIM': 16}, timeout=600), Q('dtor_order5', 'C04/dtor.cpp', 10, defs={'VF_ORDER': 5, 'VF_CLAIM': 16}, timeout=900, portfolio=True)],
+        queries=stack_queries(16) + plumb_queries(16, (6, 7, 11)) + [Q('actions_W%d_S%d_mode%d_at%d_b%d' % (w, se, mode, at, b), 'C08/actions.cpp', 6, defs={'VF_W': w, 'VF_S': se, 'VF_MODE': mode, 'VF_AT': at, 'VF_B': b, 'VF_CLAIM': 16}) for w, se, mode, at, b in ((0, 1, 2, 0, 0), (1, 3, 2, 1, 1), (0, 2, 1, 0, 0), (1, 1, 0, 0, 1), (0, 1, 3, 0, 0))] + seqstep_queries(16, quick_only=2) + [Q('set_reporter', 'C16/setrep.cpp', 6, defs={'VF_CLAIM': 16}, timeout=600), Q('dtor_order5', 'C04/dtor.cpp', 10, defs={'VF_ORDER': 5, 'VF_CLAIM': 16}, timeout=900, portfolio=True)],
         level='model_checking',
         level_text='Bounded: exactly one OK report per accepted call carrying the handling expectation\'s text; none for rejected/forbidden calls.',
         bound=STACK_BOUND,
@@ -501,6 +507,11 @@ def c20():
                         qs.append(Q('co_eager%d_y%d_end%d_calls%d%s' % (eager, y, end, calls, '_retfirst' if rfirst else ''), 'C20/co.cpp', 8, std='c++20',
                                     defs={'VF_EAGER': eager, 'VF_Y': y, 'VF_END': end, 'VF_CALLS': calls, 'VF_RFIRST': rfirst, 'VF_CLAIM': 20}, tv=(i % 6 == 0), timeout=600))
                         i += 1
+    # a CO_YIELD clause (not the first) whose expression throws: earlier yields are delivered, then the exception where the result is taken
+    for eager in (0, 1):
+        for y, yt in ((2, 1), (3, 1), (3, 2)):
+            qs.append(Q('co_eager%d_y%d_yieldthrows%d' % (eager, y, yt), 'C20/co.cpp', 8, std='c++20',
+                        defs={'VF_EAGER': eager, 'VF_Y': y, 'VF_END': 0, 'VF_CALLS': 1, 'VF_RFIRST': 0, 'VF_YT': yt, 'VF_CLAIM': 20}, timeout=600))
     return dict(
         queries=qs,
         level='model_checking',
